@@ -30,6 +30,7 @@ type c14case struct {
 	Pair     bool   `json:"pair,omitempty"`     // path: evaluate on the document of the rune-class pair keys
 	Alt      bool   `json:"alt,omitempty"`      // txt: write the regex operator in its other spelling (~=)
 	Items    []Item `json:"items,omitempty"`    // txt: the script text as items (the TLA+ side derives the intended tree from them)
+	Elems    []*Abs `json:"elems,omitempty"`    // eq / txt: further elements; original and re-parsed are evaluated on every one of them
 }
 
 // Item of a script text: an operand atom (constant), an operator, a ! marker or a parenthesised group.
@@ -92,6 +93,10 @@ func runTxt(c *c14case) []*c14event {
 		str   func() string
 		eval  func() bool
 		shape func() any
+		on    func(el any) bool // the same evaluation on another element
+	}
+	mkParsed := func(str func() string, on func(el any) bool, shape func() any) *parsed {
+		return &parsed{str, func() bool { return on(elem) }, shape, on}
 	}
 	filterShape := func(f jp.Frag) any {
 		if ff, ok := f.(*jp.Filter); ok {
@@ -109,21 +114,21 @@ func runTxt(c *c14case) []*c14event {
 			if err != nil {
 				return nil, err
 			}
-			return &parsed{y.String, func() bool { return len(y.Get([]any{elem})) == 1 }, func() any { return filterShape(y[len(y)-1]) }}, nil
+			return mkParsed(y.String, func(el any) bool { return len(y.Get([]any{el})) == 1 }, func() any { return filterShape(y[len(y)-1]) }), nil
 		}},
 		{"NewFilter", "[?(" + text + ")]", func(s string) (*parsed, error) {
 			f, err := jp.NewFilter(s)
 			if err != nil {
 				return nil, err
 			}
-			return &parsed{f.String, func() bool { return len(jp.Expr{jp.Root('$'), f}.Get([]any{elem})) == 1 }, func() any { return shapeOf(&f.Script) }}, nil
+			return mkParsed(f.String, func(el any) bool { return len(jp.Expr{jp.Root('$'), f}.Get([]any{el})) == 1 }, func() any { return shapeOf(&f.Script) }), nil
 		}},
 		{"NewScript", "(" + text + ")", func(s string) (*parsed, error) {
 			sc, err := jp.NewScript(s)
 			if err != nil {
 				return nil, err
 			}
-			return &parsed{sc.String, func() bool { return sc.Match(elem) }, func() any { return shapeOf(sc) }}, nil
+			return mkParsed(sc.String, func(el any) bool { return sc.Match(el) }, func() any { return shapeOf(sc) }), nil
 		}},
 	}
 	if c.AllForms {
@@ -138,7 +143,7 @@ func runTxt(c *c14case) []*c14event {
 			return nil
 		}
 		exprParsed := func(y jp.Expr) *parsed {
-			return &parsed{y.String, func() bool { return len(y.Get([]any{elem})) == 1 }, func() any { return filterShape(y[len(y)-1]) }}
+			return mkParsed(y.String, func(el any) bool { return len(y.Get([]any{el})) == 1 }, func() any { return filterShape(y[len(y)-1]) })
 		}
 		parsers = append(parsers, []struct {
 			form string
@@ -164,21 +169,21 @@ func runTxt(c *c14case) []*c14event {
 				if err := guard(func() { f = jp.MustNewFilter(s) }); err != nil {
 					return nil, err
 				}
-				return &parsed{f.String, func() bool { return len(jp.Expr{jp.Root('$'), f}.Get([]any{elem})) == 1 }, func() any { return shapeOf(&f.Script) }}, nil
+				return mkParsed(f.String, func(el any) bool { return len(jp.Expr{jp.Root('$'), f}.Get([]any{el})) == 1 }, func() any { return shapeOf(&f.Script) }), nil
 			}},
 			{"MustNewScript", "(" + text + ")", func(s string) (*parsed, error) {
 				var sc *jp.Script
 				if err := guard(func() { sc = jp.MustNewScript(s) }); err != nil {
 					return nil, err
 				}
-				return &parsed{sc.String, func() bool { return sc.Match(elem) }, func() any { return shapeOf(sc) }}, nil
+				return mkParsed(sc.String, func(el any) bool { return sc.Match(el) }, func() any { return shapeOf(sc) }), nil
 			}},
 			{"MustParseEquation", "(" + text + ")", func(s string) (*parsed, error) {
 				var e *jp.Equation
 				if err := guard(func() { e = jp.MustParseEquation(s) }); err != nil {
 					return nil, err
 				}
-				return &parsed{e.String, func() bool { return e.Script().Match(elem) }, func() any { return shapeOf(e.Script()) }}, nil
+				return mkParsed(e.String, func(el any) bool { return e.Script().Match(el) }, func() any { return shapeOf(e.Script()) }), nil
 			}},
 		}...)
 	}
@@ -192,7 +197,7 @@ func runTxt(c *c14case) []*c14event {
 	refs := map[string]refRes{}
 	var evs []*c14event
 	for _, ps := range parsers {
-		ev := &c14event{K: "txt", Cell: c.Cell, Form: ps.form, Elem: c.Elem, Mo: -1, Mr: -1, Case: c, S1: []int{}, S2: []int{}, Eo: []string{}, Er: []string{}, Eos: []string{}, Ers: []string{}, To: noShape, Tr: noShape}
+		ev := &c14event{K: "txt", Cell: c.Cell, Form: ps.form, Elem: c.Elem, Mo: -1, Mr: -1, Case: c, S1: []int{}, S2: []int{}, Eo: []string{}, Er: []string{}, Eos: []string{}, Ers: []string{}, To: noShape, Tr: noShape, Mos: []int{}, Mrs: []int{}}
 		p1, err := ps.p(ps.src)
 		if err != nil {
 			ev.Perr, ev.Pmsg = 1, clip("text: "+err.Error())
@@ -206,11 +211,19 @@ func runTxt(c *c14case) []*c14event {
 		ev.Mo = match(p1.eval)
 		ptb, _ := json.Marshal(ev.To)
 		ev.Pt = string(ptb)
+		var multi []string
+		if 0 < len(c.Elems) {
+			ev.Mos, multi = evalAll(c.Elems, func(el any) int { return match(func() bool { return p1.on(el) }) })
+			ev.Pt += " on elems " + multi[0] // entry points are also compared on every element
+		}
 		refs[ps.form] = refRes{ev.Pt, ev.Mo}
 		if rf, ok := refs[refOf[ps.form]]; ok {
 			ev.Pref, ev.Mref = rf.pt, rf.mo
 		}
 		ev.Eo = []string{fmt.Sprint(ev.Mo)}
+		if multi != nil {
+			ev.Eo = multi
+		}
 		ev.Eos = ev.Eo
 		if perr != "" {
 			ev.Perr, ev.Pmsg = 2, perr
@@ -222,6 +235,9 @@ func runTxt(c *c14case) []*c14event {
 			ev.Tr = p2.shape()
 			ev.Mr = match(p2.eval)
 			ev.Er = []string{fmt.Sprint(ev.Mr)}
+			if 0 < len(c.Elems) {
+				ev.Mrs, ev.Er = evalAll(c.Elems, func(el any) int { return match(func() bool { return p2.on(el) }) })
+			}
 			ev.Ers = ev.Er
 		}
 		evs = append(evs, ev)
@@ -251,7 +267,21 @@ type c14event struct {
 	Ers  []string `json:"ers"`  // the same for the re-parsed expression
 	To   any      `json:"to"`   // structure of the original script's program (shapeOf), {"op":"?"} when not available
 	Tr   any      `json:"tr"`   // the same for the re-parsed script
+	Mos  []int    `json:"mos"`  // eq / txt with case.elems: the evaluation of the original on each of them (0 / 1 / 2 = panic)
+	Mrs  []int    `json:"mrs"`  // the same for the re-parsed script
 	Case *c14case `json:"case"`
+}
+
+// evalAll evaluates on every element of the case (ev(elem) reports the match outcome 0 / 1 / 2) and returns the outcomes and
+// their joined text, which takes the place of the single outcome in eo / eos when the case names several elements.
+func evalAll(elems []*Abs, ev func(elem any) int) ([]int, []string) {
+	out := make([]int, len(elems))
+	var b strings.Builder
+	for i, el := range elems {
+		out[i] = ev(el.Simple())
+		fmt.Fprintf(&b, "%d", out[i])
+	}
+	return out, []string{b.String()}
 }
 
 var noShape = map[string]any{"op": "?"}
@@ -264,6 +294,11 @@ var keyUniverse = []struct{ cls, key string }{
 }
 
 func init() {
+	// registered functions for the text cases of the function-argument table: they hand an argument through, so the value of
+	// the argument expression decides the script (the arguments of match / search only matter when they are strings)
+	jp.RegisterUnaryFunction("vid", false, func(a any) any { return a })
+	jp.RegisterBinaryFunction("vfirst", false, false, func(a, b any) any { return a })
+	jp.RegisterBinaryFunction("vsecond", false, false, func(a, b any) any { return b })
 	// every control character individually (a class representative is not enough: the printer's and the parser's escape
 	// tables have one cell per character)
 	for c := 0; c <= 0x1f; c++ {
@@ -355,7 +390,7 @@ func safeStr(f func() string) (s string, perr string) {
 func runC14(c *c14case) []*c14event {
 	var evs []*c14event
 	mk := func(form string) *c14event {
-		return &c14event{K: c.K, Cell: c.Cell, Form: form, Ast: c.Ast, Elem: c.Elem, Mo: -1, Mr: -1, Case: c, S1: []int{}, S2: []int{}, Eo: []string{}, Er: []string{}, Eos: []string{}, Ers: []string{}, To: noShape, Tr: noShape}
+		return &c14event{K: c.K, Cell: c.Cell, Form: form, Ast: c.Ast, Elem: c.Elem, Mo: -1, Mr: -1, Case: c, S1: []int{}, S2: []int{}, Eo: []string{}, Er: []string{}, Eos: []string{}, Ers: []string{}, To: noShape, Tr: noShape, Mos: []int{}, Mrs: []int{}}
 	}
 	if c.K == "path" {
 		var x jp.Expr
@@ -438,6 +473,14 @@ func runC14(c *c14case) []*c14event {
 			ev.Mo = match(func() bool { return c.Ast.Build().Script().Match(elem) })
 		}
 		ev.Eo = []string{fmt.Sprint(ev.Mo)}
+		if 0 < len(c.Elems) {
+			ev.Mos, ev.Eo = evalAll(c.Elems, func(el any) int {
+				if form == "Filter.String" {
+					return match(func() bool { return len(jp.R().F(c.Ast.Build()).Get([]any{el})) == 1 })
+				}
+				return match(func() bool { return c.Ast.Build().Script().Match(el) })
+			})
+		}
 		ev.Eos = ev.Eo
 		if perr != "" {
 			ev.Perr, ev.Pmsg = 2, perr
@@ -446,6 +489,7 @@ func runC14(c *c14case) []*c14event {
 		}
 		var s2 string
 		var re func() bool
+		var reOn func(el any) bool
 		var reShape func() any
 		var err error
 		switch form {
@@ -453,12 +497,14 @@ func runC14(c *c14case) []*c14event {
 			var e2 *jp.Equation
 			s2, perr = safeStr(func() string { e2 = jp.MustParseEquation(s1); return e2.String() })
 			re = func() bool { return e2.Script().Match(elem) }
+			reOn = func(el any) bool { return e2.Script().Match(el) }
 			reShape = func() any { return shapeOf(e2.Script()) }
 		case "Script.String":
 			var sc *jp.Script
 			if sc, err = jp.NewScript(s1); err == nil {
 				s2 = sc.String()
 				re = func() bool { return sc.Match(elem) }
+				reOn = func(el any) bool { return sc.Match(el) }
 				reShape = func() any { return shapeOf(sc) }
 			}
 		default:
@@ -466,6 +512,7 @@ func runC14(c *c14case) []*c14event {
 			if y, err = parseOwned(s1); err == nil {
 				s2 = y.String()
 				re = func() bool { return len(y.Get([]any{elem})) == 1 }
+				reOn = func(el any) bool { return len(y.Get([]any{el})) == 1 }
 				reShape = func() any {
 					if ff, ok := y[len(y)-1].(*jp.Filter); ok {
 						return shapeOf(&ff.Script)
@@ -483,6 +530,9 @@ func runC14(c *c14case) []*c14event {
 			ev.Tr = reShape()
 			ev.Mr = match(re)
 			ev.Er = []string{fmt.Sprint(ev.Mr)}
+			if 0 < len(c.Elems) {
+				ev.Mrs, ev.Er = evalAll(c.Elems, func(el any) int { return match(func() bool { return reOn(el) }) })
+			}
 			ev.Ers = ev.Er
 		}
 		evs = append(evs, ev)
